@@ -79,6 +79,12 @@ func genCase(rt *rapid.T) Case {
 		// slip evaluates a macro expansion only when it is built with backquote (documented by its example and
 		// tests), so the macro is written that way; the reference evaluator gets the equivalent list form
 		c.Macros = []string{"(defmacro zm1 (zq) `(+ ,zq 1))"}
+		if rapid.Bool().Draw(rt, "macro-template") {
+			// the same function of its argument, with a template that holds calls without a comma below the top level
+			// which depend on a binding the expansion makes: every expansion must get its own copy of them (the
+			// evaluation of one expansion compiles its argument slots in place)
+			c.Macros = []string{"(defmacro zm1 (zq) `(let ((zy ,zq)) (+ zy (* 0 (+ zy 1)) 1)))"}
+		}
 	}
 	for i := 1; i <= nvar; i++ {
 		name := fmt.Sprintf("*zg%d*", i)
